@@ -85,7 +85,8 @@ Proof. exact percent_rounds_up. Qed.
 Print Assumptions C15_percent.
 
 (** The whole reconcile: the canary list a status write carries is either the list read, unchanged, or
-    [select_nodes] for the resolved replicas over the nodes matching the canary node selector. *)
+    [select_nodes] for the resolved replicas over the nodes matching the canary node selector ([select_or_fail]: when
+    the List of the pods or of the nodes fails inside [selectNodes] the list stays as it was and the error is reported). *)
 Theorem C15_sync_source : forall sn pl st' c',
   eds_sync sn = Ok pl -> In st' (statuses_of (ep_writes pl)) -> es_canary st' = Some c' ->
   exists e, es_obj sn = Some e /\
@@ -99,8 +100,8 @@ Theorem C15_sync_source : forall sn pl st' c',
       ((nb = zlen prev /\ cs_nodes c' = prev) \/
        (nb <> zlen prev /\
         exists enough,
-        select_nodes (r_tmpl uptodate) (ca_antiaffinity cspec) nb (canary_candidate_nodes sn cspec)
-                     (eds_pods sn e) prev = (cs_nodes c', enough) /\ (enough = false -> ep_error pl = true)))).
+        select_or_fail sn (r_tmpl uptodate) (ca_antiaffinity cspec) nb (canary_candidate_nodes sn cspec)
+                       (eds_pods sn e) prev = (cs_nodes c', enough) /\ (enough = false -> ep_error pl = true)))).
 Proof. exact sync_canary_nodes. Qed.
 Print Assumptions C15_sync_source.
 
@@ -139,8 +140,8 @@ Theorem C15_sync_short_reports_error : forall sn pl e uptodate current rq cspec 
   canary_failed_rs (r_status uptodate) = false -> N.eqb (r_name current) (r_name uptodate) = false ->
   ca_replicas cspec = Some rep -> resolve_iop rep (es_desired (e_status e)) = Some nb ->
   nb <> zlen (status_canary_nodes (e_status e)) ->
-  snd (select_nodes (r_tmpl uptodate) (ca_antiaffinity cspec) nb (canary_candidate_nodes sn cspec)
-                    (eds_pods sn e) (status_canary_nodes (e_status e))) = false ->
+  snd (select_or_fail sn (r_tmpl uptodate) (ca_antiaffinity cspec) nb (canary_candidate_nodes sn cspec)
+                      (eds_pods sn e) (status_canary_nodes (e_status e))) = false ->
   ep_error pl = true.
 Proof. exact short_selection_error. Qed.
 Print Assumptions C15_sync_short_reports_error.
